@@ -8,6 +8,7 @@
 import VotelibProofs.Lemmas.NBest
 import VotelibProofs.Lemmas.SortBy
 import VotelibProofs.Lemmas.Bracket
+import VotelibProofs.Lemmas.OpenList
 import Mathlib.Tactic.Ring
 import Mathlib.Algebra.Order.Field.Basic
 import VotelibModel.Threshold
@@ -311,5 +312,216 @@ theorem property_dispatch (prop : Cand → Option Nat) (evs : List (Nat × Optio
   refine ⟨?_, hs⟩
   intro c
   rw [hm c, mem_keys_sortDesc]
+
+/-! ## the selector tree: the combinators above are what `Sel.eval` runs -/
+
+theorem sel_eval_abs (a : Attrs) (f : Nat) (t : Rat) (eq : Bool) (votes : Votes) :
+    Sel.eval a (f+1) (.abs t eq) votes none = .ok (absoluteThreshold t eq votes) := rfl
+
+theorem sel_eval_rel (a : Attrs) (f : Nat) (t : Rat) (eq : Bool) (votes : Votes) :
+    Sel.eval a (f+1) (.rel t eq) votes none = relativeThreshold t eq votes := rfl
+
+theorem sel_eval_prev (a : Attrs) (f : Nat) (inner : Sel) (votes pg : Votes) :
+    Sel.eval a (f+1) (.prevGain inner) votes (some pg) = Sel.eval a f inner pg none := rfl
+
+/-- alternative thresholds inside a tree: exactly the union of what the parts pass (each part called with the
+    previous gains iff its `evaluate` takes them) -/
+theorem sel_alt_is_union (a : Attrs) (f : Nat) (parts : List Sel) (votes : Votes) (prev : Option Votes)
+    (out : List Cand) (h : Sel.eval a (f+1) (.alt parts) votes prev = .ok out) (c : Cand) :
+    c ∈ out ↔ ∃ p ∈ parts, ∃ r,
+      Sel.eval a f p votes (if p.acceptsPrev then some (prev.getD []) else none) = .ok r ∧ c ∈ r := by
+  have h' : alternativeThresholds
+      (parts.map (fun x v => Sel.eval a f x v (if x.acceptsPrev then some (prev.getD []) else none))) votes
+      = .ok out := by cases prev <;> exact h
+  obtain ⟨_, _, _, hm, _, _⟩ := alternative_is_union _ _ _ h'
+  rw [hm c]
+  constructor
+  · rintro ⟨p, hp, r, hr, hc⟩
+    obtain ⟨x, hx, rfl⟩ := List.mem_map.mp hp
+    exact ⟨x, hx, r, hr, hc⟩
+  · rintro ⟨x, hx, r, hr, hc⟩
+    exact ⟨_, List.mem_map.mpr ⟨x, hx, rfl⟩, r, hr, hc⟩
+
+/-- coalition bracketer inside a tree: a party passes iff the selector of its own bracket passes it -/
+theorem sel_coalition_dispatch (a : Attrs) (f : Nat) (evs : List (Nat × Sel)) (d : Sel) (votes : Votes)
+    (out : List Cand) (h : Sel.eval a (f+1) (.coalition evs d) votes none = .ok out) (c : Cand) :
+    c ∈ out ↔ c ∈ keys votes ∧ ∃ r, Sel.eval a f (dictGet evs (a.members c) d) votes none = .ok r ∧ c ∈ r := by
+  have h' : coalitionBracketer a.members (evs.map (fun e => (e.1, (fun x v => Sel.eval a f x v none) e.2)))
+      ((fun x v => Sel.eval a f x v none) d) votes = .ok out := h
+  rw [(coalition_dispatch _ _ _ _ _ h').1 c, dictGet_map (fun x v => Sel.eval a f x v none)]
+
+/-- property bracketer inside a tree -/
+theorem sel_property_dispatch (a : Attrs) (f : Nat) (evs : List (Nat × Option Sel)) (d : Option Sel)
+    (votes : Votes) (out : List Cand) (h : Sel.eval a (f+1) (.property evs d) votes none = .ok out) (c : Cand) :
+    c ∈ out ↔ c ∈ keys votes ∧
+      (match (match a.prop c with | some k => dictGet evs k d | none => d) with
+       | some s => ∃ r, Sel.eval a f s votes none = .ok r ∧ c ∈ r
+       | none => True) := by
+  have h' : propertyBracketer a.prop
+      (evs.map (fun e => (e.1, (Option.map (fun x v => Sel.eval a f x v none)) e.2)))
+      (Option.map (fun x v => Sel.eval a f x v none) d) votes = .ok out := h
+  rw [(property_dispatch _ _ _ _ _ h').1 c]
+  apply and_congr_right
+  intro hc
+  have hv : propertyVariant (evs.map (fun e => (e.1, (Option.map (fun x v => Sel.eval a f x v none)) e.2)))
+      (Option.map (fun x v => Sel.eval a f x v none) d) votes (a.prop c) =
+      (match (match a.prop c with | some k => dictGet evs k d | none => d) with
+       | some s => Sel.eval a f s votes none
+       | none => .ok (keys votes)) := by
+    unfold propertyVariant
+    cases a.prop c with
+    | none => cases d <;> rfl
+    | some k =>
+      simp only
+      rw [dictGet_map (Option.map (fun x v => Sel.eval a f x v none))]
+      cases dictGet evs k d <;> rfl
+  rw [hv]
+  cases (match a.prop c with | some k => dictGet evs k d | none => d) with
+  | none => simp [hc]
+  | some s => simp
+
+/-! ## QuotaSelector -/
+
+/-- **quota_selector_exact.**  When at most `n` candidates reach the quota, the selector returns exactly the
+    candidates strictly over the computed quota — or on it when equality is accepted — by non-increasing votes;
+    no tie objects. -/
+theorem quota_selector_exact (quota : Rat → Nat → Rat) (eq : Bool) (om : OnMore) (votes : Votes) (n : Nat)
+    (hfit : (votes.filter (fun p => passes eq (quota (sumVals votes) n) p.2)).length ≤ n) :
+    ∃ r : List Cand, quotaSelector quota eq om votes n = .ok (r.map Slot.cand) ∧
+      (∀ c, c ∈ r ↔ ∃ v, (c, v) ∈ votes ∧
+        (quota (sumVals votes) n < v ∨ (eq = true ∧ v = quota (sumVals votes) n))) ∧
+      r.Sublist ((sortDesc votes).map (·.1)) := by
+  have hq : quotaSelector quota eq om votes n =
+      .ok (getNBest (votes.filter (fun p => passes eq (quota (sumVals votes) n) p.2)) n) := by
+    have hfit' : ¬ (List.filter (fun p => decide (p.2 > quota (sumVals votes) n) ||
+        (eq && decide (p.2 = quota (sumVals votes) n))) votes).length > n :=
+      fun h => absurd hfit (not_le.mpr h)
+    unfold quotaSelector
+    simp only
+    rw [if_neg hfit']
+    rfl
+  rw [hq, getNBest_all _ _ hfit]
+  refine ⟨(sortDesc (votes.filter (fun p => passes eq (quota (sumVals votes) n) p.2))).map (·.1), ?_, ?_, ?_⟩
+  · simp [List.map_map, Function.comp_def]
+  · intro c
+    simp only [List.mem_map, mem_sortDesc, List.mem_filter, passes_iff]
+    constructor
+    · rintro ⟨⟨c', v⟩, ⟨hm, hp⟩, rfl⟩; exact ⟨v, hm, hp⟩
+    · rintro ⟨v, hm, hp⟩; exact ⟨(c, v), ⟨hm, hp⟩, rfl⟩
+  · apply List.Sublist.map
+    rw [sortDesc_filter_comm (fun v => passes eq (quota (sumVals votes) n) v) votes]
+    exact List.filter_sublist
+
+/-- more candidates over the quota than seats, policy 'error' -/
+theorem quota_selector_overflow_error (quota : Rat → Nat → Rat) (eq : Bool) (votes : Votes) (n : Nat)
+    (hover : n < (votes.filter (fun p => passes eq (quota (sumVals votes) n) p.2)).length) :
+    quotaSelector quota eq .error votes n = .error .votingSystemError := by
+  have hover' : (List.filter (fun p => decide (p.2 > quota (sumVals votes) n) ||
+      (eq && decide (p.2 = quota (sumVals votes) n))) votes).length > n := hover
+  unfold quotaSelector
+  simp only
+  rw [if_pos hover']
+
+/-- ... policy 'select': `get_n_best` among exactly the candidates over the quota (characterised in VL.C09) -/
+theorem quota_selector_overflow_select (quota : Rat → Nat → Rat) (eq : Bool) (votes : Votes) (n : Nat) :
+    quotaSelector quota eq .select votes n =
+      .ok (getNBest (votes.filter (fun p => passes eq (quota (sumVals votes) n) p.2)) n) := by
+  unfold quotaSelector
+  simp only
+  split <;> rfl
+
+/-! ## ThresholdOpenList -/
+
+/-- `c` reaches the jump threshold `thr`: strictly over it, or on it when equality is accepted -/
+def IsJumper (eq : Bool) (thr : Rat) (votes : Votes) (c : Cand) : Prop :=
+  ∃ v, (c, v) ∈ votes ∧ (thr < v ∨ (eq = true ∧ v = thr))
+
+theorem mem_jumpers (eq : Bool) (thr : Rat) (votes : Votes) (c : Cand) :
+    c ∈ jumpers eq thr votes ↔ IsJumper eq thr votes c := abs_threshold_exact thr eq votes c
+
+/-- **The jump threshold as configured**: the jump fraction of the list total, the quota (multiplied by the quota
+    fraction; a fraction of one changes nothing), the lower of the two by default, the higher one with
+    `take_higher`; none at all when neither is configured. -/
+theorem jump_threshold_spec (cfg : OpenListCfg) (total : Rat) (n : Nat) :
+    jumpThreshold cfg total n =
+      match cfg.jumpFraction, cfg.quota with
+      | none, none => none
+      | some jf, none => some (total * jf)
+      | none, some q => some (q total n * cfg.quotaFraction)
+      | some jf, some q =>
+        some (if cfg.takeHigher then max (total * jf) (q total n * cfg.quotaFraction)
+              else min (total * jf) (q total n * cfg.quotaFraction)) := by
+  have hq : ∀ q, cfg.quota = some q → ∃ q', cfg.quotaFunction = some q' ∧ q' total n = q total n * cfg.quotaFraction := by
+    intro q hq
+    unfold OpenListCfg.quotaFunction
+    rw [hq]
+    by_cases h1 : cfg.quotaFraction = 1
+    · exact ⟨q, by simp [h1], by rw [h1, mul_one]⟩
+    · exact ⟨fun v s => q v s * cfg.quotaFraction, by simp only [ne_eq, h1, not_false_eq_true, if_true], rfl⟩
+  have hmax : ∀ a b : Rat, Py.pyMax a b = max a b := by
+    intro a b; unfold Py.pyMax
+    rcases lt_or_ge a b with h | h
+    · rw [if_pos h, max_eq_right (le_of_lt h)]
+    · rw [if_neg (not_lt.mpr h), max_eq_left h]
+  have hmin : ∀ a b : Rat, pyMin a b = min a b := by
+    intro a b; unfold pyMin
+    rcases lt_or_ge b a with h | h
+    · rw [if_pos h, min_eq_right (le_of_lt h)]
+    · rw [if_neg (not_lt.mpr h), min_eq_left h]
+  unfold jumpThreshold
+  cases hj : cfg.jumpFraction <;> cases hqq : cfg.quota
+  · simp [OpenListCfg.quotaFunction, hqq]
+  · obtain ⟨q', h1, h2⟩ := hq _ hqq
+    simp [h1, h2]
+  · simp [OpenListCfg.quotaFunction, hqq]
+  · obtain ⟨q', h1, h2⟩ := hq _ hqq
+    simp [h1, h2, hmax, hmin]
+
+/-- no jump fraction and no quota: the first `n` of the list -/
+theorem openlist_no_threshold (cfg : OpenListCfg) (votes : Votes) (n : Nat) (clist : List Cand)
+    (h : jumpThreshold cfg (sumVals votes) n = none) :
+    thresholdOpenList cfg votes n clist = .ok (clist.take n) := by
+  unfold thresholdOpenList; rw [h]
+
+/-- **The jumpers fit**: all of them are seated first, in `sorted_votes` order; the seats left go to the list
+    members that did not jump, each once, in list order. -/
+theorem openlist_fill (cfg : OpenListCfg) (votes : Votes) (n : Nat) (clist : List Cand) (thr : Rat)
+    (hthr : jumpThreshold cfg (sumVals votes) n = some thr)
+    (hfit : (jumpers cfg.acceptEqual thr votes).length ≤ n) :
+    thresholdOpenList cfg votes n clist =
+      .ok (jumpers cfg.acceptEqual thr votes ++
+        ((dedupKeep clist).filter (fun c => !(jumpers cfg.acceptEqual thr votes).contains c)).take
+          (n - (jumpers cfg.acceptEqual thr votes).length)) := by
+  unfold thresholdOpenList
+  rw [hthr]
+  simp only
+  rw [if_neg (by omega), fillFromList_eq n clist _ hfit]
+
+/-- more jumpers than seats, votes take precedence: the first `n` jumpers in `sorted_votes` order -/
+theorem openlist_overflow_by_votes (cfg : OpenListCfg) (votes : Votes) (n : Nat) (clist : List Cand) (thr : Rat)
+    (hthr : jumpThreshold cfg (sumVals votes) n = some thr)
+    (hover : n < (jumpers cfg.acceptEqual thr votes).length) (hlp : cfg.listPrecedence = false) :
+    thresholdOpenList cfg votes n clist = .ok ((jumpers cfg.acceptEqual thr votes).take n) := by
+  unfold thresholdOpenList
+  rw [hthr]
+  simp only
+  rw [if_pos hover, hlp]
+  rfl
+
+/-- more jumpers than seats, the list takes precedence: the `n` jumpers highest on the list, re-sorted by votes
+    (stable); a jumper that is not on the list makes `list.index` raise ValueError -/
+theorem openlist_overflow_by_list (cfg : OpenListCfg) (votes : Votes) (n : Nat) (clist : List Cand) (thr : Rat)
+    (hthr : jumpThreshold cfg (sumVals votes) n = some thr)
+    (hover : n < (jumpers cfg.acceptEqual thr votes).length) (hlp : cfg.listPrecedence = true) :
+    thresholdOpenList cfg votes n clist =
+      if ∀ c ∈ jumpers cfg.acceptEqual thr votes, c ∈ clist then
+        .ok (sortBy (fun a b => decide (getD votes b 0 < getD votes a 0))
+          ((sortBy (fun a b => decide (clist.idxOf a < clist.idxOf b)) (jumpers cfg.acceptEqual thr votes)).take n))
+      else .error .valueError := by
+  unfold thresholdOpenList
+  rw [hthr]
+  simp only
+  rw [if_pos hover, hlp]
+  simp only [if_true, List.all_eq_true, List.contains_iff_mem]
 
 end VL.C16
